@@ -1037,6 +1037,9 @@ AExtSubRet ==
 (*   <<"sub", k> inp.parse(&subs[k])   <<"chk", k>> inp.check(&subs[k]):  Err(e) => return Err(e), where e is the     *)
 (*               WHOLE pending error (take_alt().unwrap().err)                                                        *)
 (*   <<"f">>     return Err(user error over span_since(start))                                                        *)
+(*   <<"nm">>    inp.next_maybe() (as next)   <<"pm", t>>  inp.peek_maybe() (as peek)                                 *)
+(*   observers (their answers are collected and returned with the final span):                                        *)
+(*   <<"ss">>    inp.span_since(c.cursor())   <<"st">>  *inp.state() (the inspector)   <<"cx">>  inp.ctx()             *)
 (* Falling off the end returns Ok(span_since(start)).  Custom::go files a returned error with add_alt_err at the      *)
 (* position where the closure started; the cursor stays wherever the closure left it.                                 *)
 ProgEntering == /\ ~st.done /\ stack # <<>> /\ ~ret.set /\ Op(Top.g) = "prog"
@@ -1056,11 +1059,15 @@ AProgStep ==
          nx == [f EXCEPT !.pc = i]
          t == TokAt(cur)
      IN IF i > Len(ins)
-        THEN LET sp == SpanOf(f.cp.cur, cur) IN Keep(OkRet(MV(f.mode, VSp(sp[1], sp[2]))))
+        THEN LET sp == SpanOf(f.cp.cur, cur) IN
+             Keep(OkRet(MV(f.mode, IF f.acc = <<>> THEN VSp(sp[1], sp[2]) ELSE VP(VL(f.acc), VSp(sp[1], sp[2])))))
         ELSE LET o == ins[i] IN
-             CASE o[1] = "n" -> IF t = "" THEN ProgFail(f, ProgUserErr(f)) ELSE ProgStay(nx, Nxt(cur), sec, insp + 1)
+             CASE o[1] \in {"n", "nm"} -> IF t = "" THEN ProgFail(f, ProgUserErr(f)) ELSE ProgStay(nx, Nxt(cur), sec, insp + 1)
                [] o[1] = "s" -> IF t = "" THEN ProgStay(nx, cur, sec, insp) ELSE ProgStay(nx, Nxt(cur), sec, insp + 1)
-               [] o[1] = "p" -> IF t = o[2] THEN ProgStay(nx, cur, sec, insp) ELSE ProgFail(f, ProgUserErr(f))
+               [] o[1] \in {"p", "pm"} -> IF t = o[2] THEN ProgStay(nx, cur, sec, insp) ELSE ProgFail(f, ProgUserErr(f))
+               [] o[1] = "ss" -> LET sp == SpanOf(f.cp2.cur, cur) IN ProgStay([nx EXCEPT !.acc = Append(@, VSp(sp[1], sp[2]))], cur, sec, insp)
+               [] o[1] = "st" -> ProgStay([nx EXCEPT !.acc = Append(@, VI(insp))], cur, sec, insp)
+               [] o[1] = "cx" -> ProgStay([nx EXCEPT !.acc = Append(@, f.ctx)], cur, sec, insp)
                [] o[1] = "sv" -> ProgStay([nx EXCEPT !.cp2 = Cp(cur, Len(sec), insp)], cur, sec, insp)
                [] o[1] = "rw" -> ProgStay(nx, f.cp2.cur, RwSec(f.cp2), f.cp2.insp)
                [] o[1] = "f" -> ProgFail(f, ProgUserErr(f))
